@@ -10,7 +10,14 @@
      ([Unspec]: nothing is required of an implementation);
    * "Division/modulo by zero" is a runtime error for INTEGER operands; float arithmetic is
      whatever the (shared, abstract) float operation yields;
-   * an if-condition of integer type is true iff non-zero ("0 is false, non-zero is true").
+   * an if-condition of integer type is true iff non-zero ("0 is false, non-zero is true");
+   * LOOPS: spec.md defines none ("No loops"). The compiler implements `for c {…}`, `for {…}`,
+     `for x := range([start,] stop[, step]) {…}`, `break`, `continue`; their reference semantics
+     here is the conventional structured-programming one (condition re-evaluated before every
+     iteration; range evaluates its arguments once, counts from start (default 0) by step
+     (default 1) while x < stop, or while x > stop for a negative step; step 0 unspecified;
+     `continue` proceeds to the increment; `break` leaves the innermost loop), written with fuel:
+     a loop exceeding [loop_fuel] iterations is [Unspec].
    No proofs in this file. *)
 From Coq Require Import ZArith List Bool Zpow_facts.
 From Synnax Require Import Arc.Syntax.
@@ -102,6 +109,9 @@ Section Sem.
   Definition env := nat -> val.
   Definition upd (r : env) (i : nat) (v : val) : env := fun j => if Nat.eqb j i then v else r j.
 
+  (* iterations after which a loop is given up as unspecified *)
+  Definition loop_fuel : nat := 3000.
+
   Section Expr.
     Variable tys : list ty.
 
@@ -167,7 +177,7 @@ Section Sem.
       end.
 
     (* statements *)
-    Inductive outcome := Next (r : env) | Ret (v : val).
+    Inductive outcome := Next (r : env) | Ret (v : val) | Brk (r : env) | Cont (r : env).
 
     Definition compound (r : env) (i : nat) (op : arith) (v : val) : res val :=
       match nth_error tys i, r i, v with
@@ -189,13 +199,72 @@ Section Sem.
           bind (eval r c) (fun vc => bind (cond_true vc) (fun b =>
             if b then exec_block r th else exec_els r el))
       | SReturn e => bind (eval r e) (fun v => Ok (Ret v))
+      | SFor c b =>
+          (fix iter (n : nat) (r : env) : res outcome :=
+             match n with
+             | O => Unspec
+             | S n' =>
+                 bind (eval r c) (fun vc => bind (cond_true vc) (fun t =>
+                   if t then
+                     bind (exec_block r b) (fun o =>
+                       match o with
+                       | Next r' | Cont r' => iter n' r'
+                       | Brk r' => Ok (Next r')
+                       | Ret v => Ok (Ret v)
+                       end)
+                   else Ok (Next r)))
+             end) loop_fuel r
+      | SLoop b =>
+          (fix iter (n : nat) (r : env) : res outcome :=
+             match n with
+             | O => Unspec
+             | S n' =>
+                 bind (exec_block r b) (fun o =>
+                   match o with
+                   | Next r' | Cont r' => iter n' r'
+                   | Brk r' => Ok (Next r')
+                   | Ret v => Ok (Ret v)
+                   end)
+             end) loop_fuel r
+      | SRange i lim t start stop step b =>
+          bind (match start with Some e => eval r e | None => Ok (VI 0) end) (fun v0 =>
+          bind (eval r stop) (fun vl =>
+          bind (match step with Some (_, e) => eval r e | None => Ok (VI 1) end) (fun vs =>
+            match v0, vl, vs with
+            | VI z0, VI zl, VI zs =>
+                if zs =? 0 then Unspec else
+                (fix iter (n : nat) (r : env) : res outcome :=
+                   match n with
+                   | O => Unspec
+                   | S n' =>
+                       match r i with
+                       | VI z =>
+                           if (if 0 <? zs then zl <=? z else z <=? zl) then Ok (Next r)
+                           else
+                             bind (exec_block r b) (fun o =>
+                               match o with
+                               | Next r' | Cont r' =>
+                                   match r' i with
+                                   | VI z' => iter n' (upd r' i (VI (wrap t (z' + zs))))
+                                   | _ => Unspec
+                                   end
+                               | Brk r' => Ok (Next r')
+                               | Ret v => Ok (Ret v)
+                               end)
+                       | _ => Unspec
+                       end
+                   end) loop_fuel (upd r i (VI z0))
+            | _, _, _ => Unspec
+            end)))
+      | SBreak => Ok (Brk r)
+      | SContinue => Ok (Cont r)
       end
     with exec_block (r : env) (b : block) : res outcome :=
       match b with
       | BNil => Ok (Next r)
       | BCons s rest =>
           bind (exec_stmt r s) (fun o =>
-            match o with Next r' => exec_block r' rest | Ret v => Ok (Ret v) end)
+            match o with Next r' => exec_block r' rest | o' => Ok o' end)
       end
     with exec_els (r : env) (el : els) : res outcome :=
       match el with
@@ -221,8 +290,8 @@ Section Sem.
   (* calling f on argument values: the value of the first executed return *)
   Definition spec_run (f : func) (args : list val) : res val :=
     bind (exec_block (f_tys f) (env_of args) (f_body f)) (fun o =>
-      match o with Ret v => Ok v | Next _ => Unspec end).
+      match o with Ret v => Ok v | _ => Unspec end).
 End Sem.
 
 Arguments VI {fo}. Arguments VF {fo}.
-Arguments Next {fo}. Arguments Ret {fo}.
+Arguments Next {fo}. Arguments Ret {fo}. Arguments Brk {fo}. Arguments Cont {fo}.
